@@ -13,7 +13,9 @@ Case (driver "schedule"):
      l_readd_c / _s            state.add_*_listener() AGAIN for a listener that is registered state-wide already
                                (preferably one that was unlistened from a live object meanwhile)
      w_built / w_closed        circuit.when_built() / when_closed() on known circuit a (b%4==0: incl. gone ones)
-     q_close_c / q_close_s     Circuit.close() / Stream.close() on live object a (c%6==0: on a gone one;
+     q_close_c / q_close_s     Circuit.close() / Stream.close() on live object a ((a//16)%4 = 2/3: the caller
+                               attaches its own follow-up callback that raises / returns a Deferred that never
+                               fires; c%6==0: on a gone one;
                                c%6==5: requested twice in a row; c%3==1: tor's reply is not delayed;
                                b%4==3: tor refuses the command with 552 because it is tearing the object down
                                itself - the object is dying and x_gone / c_close / s_close report it gone)
@@ -88,6 +90,9 @@ ASSUMPTIONS = [
     "kwargs, so none are allowed - in particular no keyword of an earlier event of the same object); the "
     "circuit/stream/router arguments are compared by id / id_hex",
     "wait results are compared by outcome (pending/succeeded/failed) and timing, not by value",
+    "a caller may attach its own follow-up callback to the Deferred a close() handed it (one that raises, or one "
+    "that returns a Deferred that never fires); the outcome of every wait is observed before that follow-up, and "
+    "no caller's follow-up may change the outcome another caller observes",
     "listener programmes: a double may, from inside a callback during the delivery of an event, unlisten itself "
     "or another listener from that object or listen() another per-object listener on it (public "
     "Circuit/Stream.listen/unlisten only; it never touches TorState itself, never raises); a listener "
@@ -145,7 +150,8 @@ def cases():
     risky = st.sampled_from([[0, 0, 0, 0], [0, 0, 0, 0], [0, 1, 0, 0], [0, 5, 0, 0], [0, 5, 0, 0], [0, 4, 0, 0],
                              [0, 6, 0, 0], [1, 0, 1, 0], [1, 5, 1, 0], [2, 0, 0, 0], [2, 5, 0, 0],
                              [4, 0, 0, 0], [4, 1, 0, 0], [4, 5, 0, 0], [4, 6, 0, 0], [4, 7, 0, 0], [5, 0, 1, 0],
-                             [5, 5, 1, 0], [6, 4, 0, 0]])
+                             [5, 5, 1, 0], [6, 4, 0, 0],
+                             [0, 7, 3, 1], [1, 7, 3, 0], [4, 7, 3, 1], [5, 7, 3, 0], [0, 6, 3, 1]])
     prog = st.one_of(anyprog, risky)
     return st.builds(lambda m, p, e, s, g: {"modern": m, "pre": p, "early": e, "steps": s, "progs": g},
                      st.booleans(),
@@ -365,12 +371,26 @@ def judge_listener(res, lst, new_calls, req, opt, registered, where, anyone=Fals
 
 # --------------------------------------------------------------------------- waits
 
+def _followup_raise(result):
+    raise RuntimeError("the caller's own follow-up callback failed")
+
+
+def _followup_pending(result):
+    return defer.Deferred()         # the caller goes on to wait for something else, for ever
+
+
 class Wait(object):
-    def __init__(self, kind, m, obj, d, alive, decided, cmd_index=None):
+    def __init__(self, kind, m, obj, d, alive, decided, cmd_index=None, followup=None):
         self.kind = kind            # built | closed | close_c | close_s
         self.m = m
         self.obj = obj
-        self.watch = Watch(d)
+        # the outcome is observed first; then the caller's own follow-up is attached to what it was handed (a
+        # caller's callback chain must never change what another caller sees)
+        self.watch = Watch(d, passthrough=followup is not None)
+        if followup == "raise":
+            d.addCallback(_followup_raise)
+        elif followup == "pending":
+            d.addCallback(_followup_pending)
         self.alive_at_request = alive
         self.decided_at_request = decided
         self.cmd_index = cmd_index  # index of the CLOSE* command this request put on the wire, if any
@@ -441,7 +461,7 @@ def judge_waits(res, waits, final, where, held=False):
             outs = set("failed" if w.watch.failed else "succeeded" for w in ws)
             if len(outs) > 1:
                 res.bad("%s-requests-do-not-share-outcome" % kind, "%s: close requests on %r ended %r" % (
-                    where, ws[0].m, [w.watch.outcome()[:2] for w in ws]))
+                    where, ws[0].m, [w.watch.outcome()[:2] if w.watch.failed else ("ok",) for w in ws]))
 
 
 # --------------------------------------------------------------------------- driver
@@ -765,14 +785,18 @@ class Run(object):
                     res.label(kind + "-refused-while-listed")
                 cmd_index = n0 if len(sess.close_lines) > n0 else None
                 repeated = any(x.kind == kind and x.m is m for x in self.waits)
-                self.waits.append(Wait(kind, m, obj, d, m.gone is None, bool(m.gone), cmd_index))
+                fu = [None, None, "raise", "pending"][(a // 16) % 4]
+                if fu:
+                    res.label("%s-caller-follow-up-%s" % (kind, fu))
+                self.waits.append(Wait(kind, m, obj, d, m.gone is None, bool(m.gone), cmd_index, followup=fu))
                 if c % 3 == 1 and sess.held:
                     self.do_ack()           # this time tor's reply is not delayed
                 if m.gone is None:
                     res.label(kind + ("-repeated" if repeated else "-requested"))
                     if c % 6 == 5:
                         # the caller asks again straight away (before any reply or event)
-                        self.waits.append(Wait(kind, m, obj, obj.close(), m.gone is None, bool(m.gone), None))
+                        self.waits.append(Wait(kind, m, obj, obj.close(), m.gone is None, bool(m.gone), None,
+                                               followup=[None, "raise", "pending", None][(a // 16) % 4]))
                         sess.pump()
                         res.label(kind + "-repeated")
                 else:
@@ -1076,6 +1100,12 @@ def run(ctx):
 
 
 MUTANTS = [
+    ("torstate-listens-last-on-new-circuits", "txtorcon/torstate.py",
+     "            c.listen(self)\n            for listener in self.circuit_listeners:\n                c.listen(listener)\n",
+     "            for listener in self.circuit_listeners:\n                c.listen(listener)\n            c.listen(self)\n"),
+    ("repeated-circuit-close-is-handed-the-internal-deferred", "txtorcon/circuit.py",
+     "            self._closing_deferred.addBoth(closed)\n            return d",
+     "            return self._closing_deferred"),
     ("add-circuit-listener-again-is-a-no-op", "txtorcon/torstate.py",
      "        listen = ICircuitListener(icircuitlistener)\n        for circ in self.circuits.values():",
      "        listen = ICircuitListener(icircuitlistener)\n        if listen in self.circuit_listeners:\n            return\n"
